@@ -352,7 +352,11 @@ def run(tier, seed):
                 c = b.case()
                 fam = "fnmod"
             elif r < 0.75:
-                c = c06.build_case(cid, rng, rng.choice(["default", "Self", "ref", "Borrow"]))
+                if rng.random() < 0.2:
+                    # a leaf trait stamped out by macro_rules!, parameter names / the receiver handed in by the invocation
+                    c = c06.hygiene_case(cid, rng)
+                else:
+                    c = c06.build_case(cid, rng, rng.choice(["default", "Self", "ref", "Borrow"]))
                 fam = "trait"
             else:
                 c = c07.build_case(cid, rng, dynamic=rng.random() < 0.5)
